@@ -34,6 +34,23 @@ func exprKey(e ast.Expr) string {
 		return "(" + exprKey(x.X) + x.Op.String() + exprKey(x.Y) + ")"
 	case *ast.IndexExpr:
 		return exprKey(x.X) + "[" + exprKey(x.Index) + "]"
+	case *ast.IndexListExpr:
+		return exprKey(x.X) + "[...]"
+	case *ast.SliceExpr:
+		lo, hi := "", ""
+		if x.Low != nil {
+			lo = exprKey(x.Low)
+		}
+		if x.High != nil {
+			hi = exprKey(x.High)
+		}
+		return exprKey(x.X) + "[" + lo + ":" + hi + "]"
+	case *ast.TypeAssertExpr:
+		return exprKey(x.X) + ".(type)"
+	case *ast.CompositeLit:
+		return "lit{}"
+	case *ast.FuncLit:
+		return "func{}"
 	}
 	return "?"
 }
